@@ -318,9 +318,10 @@ func init() {
 					o.Fail = fmt.Sprintf("step %d: input modified", i)
 				}
 				if err != nil {
-					res = append(res, T(1, L(I(int64(n)), I(int64(vlaErrClass(err))))))
+					// which error, and how far the decoder had come, is not the property's business (n <= len is, above);
+					// the receiver is KEPT: whatever a rejected input left in it must not show in the next result
+					res = append(res, T(1, Unit))
 					o.Tags = append(o.Tags, "vla rejected")
-					rcv = rtp.VLA{}
 					continue
 				}
 				o.Nontrivial = true
